@@ -14,6 +14,11 @@ func c14Expect(p *spec.C14Case) (class, detail string) {
 	if p.Conflict != "" {
 		return "MUST_FAIL_AT_START", "option:" + p.Conflict
 	}
+	if p.RawLine != "" && !p.Mux {
+		// a plugin that prints a short line (old builds, other languages): no protocol field means net/rpc,
+		// which the host's allowed list does not contain
+		return "MUST_FAIL_AT_START", "protocol"
+	}
 	if p.RawLine != "" {
 		// a plugin that prints a handshake line without (a true) multiplexing field while the host requests it
 		return "MUST_FAIL_AT_START", "mux"
@@ -162,6 +167,14 @@ func c14Gen(r *rand.Rand, tier string) []spec.Case {
 	for _, ln := range []string{"1|1|tcp|127.0.0.1:1|grpc", "1|1|tcp|127.0.0.1:1|grpc|", "1|1|tcp|127.0.0.1:1|grpc||false", "1|1|tcp|127.0.0.1:1|grpc||0", "1|1|unix|/nonexistent|grpc"} {
 		for _, la := range []string{"cmd", "runner"} {
 			add(spec.C14Case{Proto: "grpc", ServerTLS: "none", ClientTLS: "none", Mux: true, Launch: la, Allowed: []string{"netrpc", "grpc"}, RawLine: ln})
+		}
+	}
+	// short lines without a protocol field (= net/rpc) against hosts that do not allow net/rpc
+	for _, ln := range []string{"1|1|tcp|127.0.0.1:1", "1|1|unix|/nonexistent"} {
+		for _, al := range [][]string{{"grpc"}, {"bogus"}} {
+			for _, la := range []string{"cmd", "runner"} {
+				add(spec.C14Case{Proto: "netrpc", ServerTLS: "none", ClientTLS: "none", Launch: la, Allowed: al, RawLine: ln})
+			}
 		}
 	}
 	if tier == "thorough" {
